@@ -406,12 +406,35 @@ def _guarded_accumulate(ctx, pb):
         sm = eff.sums[fi]
         if 'acc' not in sm.writes.get('out', {}):
             continue
-        for st in walk_no_nested(fi.node):
-            if isinstance(st, ast.If) and any(isinstance(c, ast.Call) and (dotted_name(c.func) or '').split('.')[-1] in
-                                              ('may_share_memory', 'shares_memory') for c in ast.walk(st.test)):
-                accs = [a for a in ast.walk(st) if isinstance(a, ast.AugAssign) and isinstance(a.op, ast.Add)]
-                if accs:
-                    return True
+        # path by path: every returning path on which the shares-memory test came out False accumulates into `out`
+        from .rules_api import _paths
+
+        def share_outcome(path):
+            res = None
+            for t_ in path:
+                if not (isinstance(t_, tuple) and len(t_) > 2):
+                    continue
+                e, o = t_[1], t_[2]
+                while isinstance(e, ast.UnaryOp) and isinstance(e.op, ast.Not):
+                    e, o = e.operand, not o
+                if isinstance(e, ast.Call) and (dotted_name(e.func) or '').split('.')[-1] in ('may_share_memory', 'shares_memory'):
+                    res = bool(o)
+            return res
+
+        def accumulates(path):
+            for s_ in path:
+                if isinstance(s_, tuple):
+                    continue
+                for a in ast.walk(s_):
+                    if isinstance(a, ast.AugAssign) and isinstance(a.op, ast.Add):
+                        return True
+                    if isinstance(a, ast.Call) and dotted_name(a.func) == 'numpy.add' and any(k.arg == 'out' for k in a.keywords):
+                        return True
+            return False
+        paths = [p_ for p_ in _paths(fi.node.body) if not (p_ and isinstance(p_[-1], ast.Raise))]
+        copies = [p_ for p_ in paths if share_outcome(p_) is False]
+        if copies and all(accumulates(p_) for p_ in copies):
+            return True
     return False
 
 
@@ -653,6 +676,37 @@ def rule_pb_pair(ctx):
     return r
 
 
+def _never_bound_before(fi, st, name):
+    """no feasible path binds `name` and then reaches `st`: on every path through the if/else structure of the function whose tests
+    can hold together (`_feasible`; nothing the tests read may be assigned in the function) no statement before `st` stores the name.
+    `st` inside a loop / try: not decided here (False)"""
+    from .rules_api import _paths
+    paths = _paths(fi.node.body)
+    if len(paths) > 4000:
+        return False
+    stored = {x.id for x in ast.walk(fi.node) if isinstance(x, ast.Name) and isinstance(x.ctx, ast.Store)}
+    seen = False
+    for path in paths:
+        k = next((i for i, s_ in enumerate(path) if s_ is st), None)
+        if k is None:
+            continue
+        tests = [(t_[1], t_[2]) for t_ in path[:k] if isinstance(t_, tuple) and len(t_) > 2]
+        read = {x.id for t, _ in tests for x in ast.walk(t) if isinstance(x, ast.Name)}
+        if read & stored:
+            return False
+        if not _feasible(tests):
+            continue
+        seen = True
+        for s_ in path[:k]:
+            if isinstance(s_, tuple):
+                if any(isinstance(x, ast.NamedExpr) for x in ast.walk(s_[1])):
+                    return False
+                continue
+            if any(isinstance(x, ast.Name) and x.id == name and isinstance(x.ctx, (ast.Store, ast.Del)) for x in ast.walk(s_)):
+                return False
+    return seen
+
+
 def rule_pb_rebind(ctx):
     r = RuleResult('R-pb-rebind', 'in pullback code a local name that refers to adjoint storage handed in through `out` is never re-bound to a '
                                   'different array: after `xbar = <new array>` every later "accumulation" goes into the new array and never reaches '
@@ -689,6 +743,10 @@ def rule_pb_rebind(ctx):
             if placeholder:
                 r.ok(construct=_f(fi) + ':placeholder:' + name, sample='%s: `%s` replaces a placeholder (None / constant operand), not adjoint storage' % (fi.qualname, norm(st)[:50]))
                 continue
+            if _never_bound_before(fi, st, name):
+                r.ok(construct=_f(fi) + ':first-binding:' + name, sample='%s: `%s` is the first binding of the name on every feasible path (the other '
+                     'bindings sit under tests that exclude this one)' % (fi.qualname, norm(st)[:50]))
+                continue
             n += 1
             r.bad(Finding('R-pb-rebind', _f(fi), '%s:%s' % (name, norm(st)[:60]),
                           '%s re-binds `%s`, which referred to adjoint storage from `out`, to another array (`%s`): what is computed from here on '
@@ -717,6 +775,7 @@ def rule_pb_dead(ctx):
     r = RuleResult('R-pb-dead', 'in pullback code a value computed from an adjoint (`*bar`) is not overwritten before it has been read: '
                                 '`t = f(ybar); t = g(...)` / `t[...] = ...` discards an adjoint contribution (the typical slip is `=` for `+=`)')
     eff = ctx.effects
+    cur_fi = [None]
 
     def full_def(st):
         if isinstance(st, ast.Assign) and len(st.targets) == 1:
@@ -728,6 +787,13 @@ def rule_pb_dead(ctx):
                 if (isinstance(sl, ast.Constant) and sl.value is Ellipsis) or (isinstance(sl, ast.Slice) and sl.lower is None and sl.upper is None and sl.step is None):
                     return t.value.id, st.value
         if isinstance(st, ast.Expr) and isinstance(st.value, ast.Call):
+            # a kernel that only accumulates into its `out` (z += x*y) adds to the value, it does not replace it
+            if cur_fi[0] is not None:
+                rc = eff.resolve_call(cur_fi[0], st.value)
+                if rc and rc[0] == 'funcs' and rc[1]:
+                    modes = [set(eff.sums[g].writes.get('out', {})) if g in eff.sums else None for g in rc[1]]
+                    if all(md == {'acc'} for md in modes):
+                        return None
             for k in st.value.keywords:
                 if k.arg == 'out':
                     o = k.value
@@ -775,6 +841,7 @@ def rule_pb_dead(ctx):
         if not (fi.name.startswith('pb_') or fi.name.startswith('_pb_') or fi.name.endswith('_pullback')):
             continue
         n_f += 1
+        cur_fi[0] = fi
         tainted = {p_ for p_ in fi.params if p_.endswith('bar') or p_.endswith('bar_data')}
         for _ in range(4):
             for st in walk_no_nested(fi.node):
@@ -891,8 +958,9 @@ def rule_pb_dead(ctx):
                         b_ = b_.value
                     if isinstance(b_, ast.Name):
                         write_pos.add(id(b_))
-            if isinstance(n_, ast.Call):
-                for k_ in n_.keywords:
+            # `f(.., out=t)` as a whole statement only writes t; where the value of the call is consumed (`g(f(.., out=t))`) t is read through it
+            if isinstance(n_, ast.Expr) and isinstance(n_.value, ast.Call):
+                for k_ in n_.value.keywords:
                     if k_.arg == 'out':
                         for x_ in ast.walk(k_.value):
                             if isinstance(x_, ast.Name):
@@ -1915,7 +1983,11 @@ def rule_global(ctx):
                       % (len(idst), len(app)), cr.file, cr.lineno))
     # get_ID returns functionCount
     gid = m.func(TRACER, 'Function.get_ID')
-    if 'return cls.cgraph.functionCount' in norm(gid.node):
+    from .rules_shape import resolve_locals
+    gcls = gid.params[0] if gid.params else 'cls'
+    grets = [n_ for n_ in walk_no_nested(gid.node) if isinstance(n_, ast.Return)]
+    live = [n_ for n_ in grets if _known_none(gid, n_, gcls + '.cgraph') != 'none']      # returns reachable while a graph is being recorded
+    if live and all(n_.value is not None and norm(resolve_locals(gid, n_.value)) == '%s.cgraph.functionCount' % gcls for n_ in live):
         r.ok(construct='get_ID', sample='get_ID returns cls.cgraph.functionCount (= position of the next append)')
     else:
         r.bad(Finding('R-global', _f(gid), 'get_ID', 'get_ID no longer returns the current functionCount', gid.file, gid.lineno))
